@@ -12,7 +12,7 @@
 From Coq Require Import ZArith List Bool Lia Sorting.Permutation Sorting.Sorted.
 From RecordUpdate Require Import RecordUpdate.
 From SimVerif Require Import Model.Base Model.Env Model.FamEnv Model.RM Model.Maint Model.FloorTypes Model.Floor Model.FamFloor.
-From SimVerif Require Import Proofs.RMInv Proofs.EnvInv Proofs.EnvPause Proofs.EnvRem Proofs.FloorSteps Proofs.FloorInv Proofs.FloorSys Proofs.FloorProc Proofs.FloorFlow Proofs.FloorRes Proofs.FloorLink Proofs.FloorIdle Proofs.FloorLogInv Proofs.FloorTimer Proofs.FloorTimerInv.
+From SimVerif Require Import Proofs.RMInv Proofs.EnvInv Proofs.EnvPause Proofs.EnvRem Proofs.FloorSteps Proofs.FloorInv Proofs.FloorSys Proofs.FloorProc Proofs.FloorFlow Proofs.FloorRes Proofs.FloorLink Proofs.FloorIdle Proofs.FloorLogInv Proofs.FloorTimer Proofs.FloorTimerInv Proofs.EnvOpTime Proofs.FloorOpTime.
 Import ListNotations.
 Open Scope Z_scope.
 
@@ -127,6 +127,29 @@ Proof. intros sc ws. exact (step_paused fact fw ws (exec_fl sc) fl_wfail). Qed.
 Theorem C06_timer_fires_when_due : forall sc ws w (en : env fact) e0 q w' en',
   queue en = e0 :: q -> step ws (exec_fl sc) fl_wfail (w, en) = Some (Ok (w', en')) -> now en' = e_time e0.
 Proof. intros sc ws. exact (step_dispatch_time fact fw ws (exec_fl sc) fl_wfail). Qed.
+
+(** ... composed over whole histories (Proofs/EnvOpTime.v, FloorOpTime.v): a timer that has r left at some reachable point and fires at a
+    later one did so after the clock advanced by exactly r over the stretches during which it was not paused — shutdowns of any number
+    and length in between postpone the end of the cycle by exactly their length; [fxop_chain]: every operation of the floor driver
+    (executed event, call between events, user event, device constructed late) is a step of such a history *)
+Theorem C06_timer_fires_after_exactly_its_remaining_time_unpaused : forall sc i s w1 en1 t r e0 q s2,
+  reach_in sc s -> Rem fact (snd s) i r ->
+  chain fact fw (wgen (fq_seed sc) (fq_mod sc)) (exec_fl sc) fl_wfail i s (w1, en1) t ->
+  queue en1 = e0 :: q -> e_id e0 = i -> e_cancelled e0 = false ->
+  step (wgen (fq_seed sc) (fq_mod sc)) (exec_fl sc) fl_wfail (w1, en1) = Some (Ok s2) ->
+  t + (now (snd s2) - now en1) = r /\ pendingb fact en1 i = true.
+Proof.
+  intros sc i s w1 en1 t r e0 q s2 HR. destruct (reach_in_JS sc s HR) as [_ [I _]].
+  exact (fires_after_exactly_its_delay fact fw _ (exec_fl sc) fl_wfail i s w1 en1 t r e0 q s2 I).
+Qed.
+Theorem C06_floor_operations_are_history_steps : forall sc s x s' i s2 t,
+  x <> FXInit -> (forall d, x <> FXRun d) -> do_fxop sc s x = (s', 0) ->
+  chain fact fw (wgen (fq_seed sc) (fq_mod sc)) (exec_fl sc) fl_wfail i s' s2 t ->
+  chain fact fw (wgen (fq_seed sc) (fq_mod sc)) (exec_fl sc) fl_wfail i s s2
+        ((match x with FXStep => if pendingb fact (snd s) i then now (snd s') - now (snd s) else 0 | _ => 0 end) + t).
+Proof. exact fxop_chain. Qed.
+Print Assumptions C06_timer_fires_after_exactly_its_remaining_time_unpaused.
+Print Assumptions C06_floor_operations_are_history_steps.
 Print Assumptions C06_pending_timer_loses_exactly_the_elapsed_time.
 Print Assumptions C06_paused_timer_loses_nothing.
 Print Assumptions C06_timer_fires_when_due.
@@ -165,4 +188,29 @@ Proof.
   split; [apply reach_ok_in, R3|]. split; [apply reach_ok_in, Rd|].
   split; [apply reach_ok_in, fx_steps_reach; [exact Rf|vm_compute; reflexivity]|].
   repeat split; vm_compute; reflexivity.
+Qed.
+
+(** Non-vacuity of the history theorem, same line: the processor takes a part at 8 (timer: event 2, due 32, 24 left); the source's event at
+    16 is executed (8 of the 24 gone); the processor is shut down (timer paused with 16 left), the source's hand-over attempt at 16 and a
+    user event at 40 are executed, the processor is
+    restored at 40 (timer due 56); the timer fires at 56: 8 + 16 = 24 of unpaused time, 24 of pause on top. *)
+Definition c06_s2 := fx_steps c06_sc 2 c06_s0.
+Definition c06_ops := [FXStep; FXNow (UShutdown 2); FXStep; FXAt 40 0 32; FXStep; FXNow (URestore 2)].
+Definition c06_s1 := match fx_hist c06_sc 2 c06_ops c06_s2 with Some (s, _) => s | None => c06_s2 end.
+Definition c06_se := fst (do_fxop c06_sc c06_s1 FXStep).
+Example C06_history_nonvacuous :
+  reach_in c06_sc c06_s2 /\ Rem fact (snd c06_s2) 2%nat 24 /\
+  chain fact fw (wgen 1 1) (exec_fl c06_sc) fl_wfail 2%nat c06_s2 c06_s1 8 /\
+  map (fun e => (e_id e, e_time e, e_cancelled e)) (queue (snd c06_s1)) = [(2%nat, 56, false)] /\ now (snd c06_s1) = 40 /\
+  step (wgen 1 1) (exec_fl c06_sc) fl_wfail c06_s1 = Some (Ok c06_se) /\ now (snd c06_se) = 56.
+Proof.
+  assert (R0 : reach_ok c06_sc c06_s0).
+  { apply ro_init; [vm_compute; reflexivity|]. unfold c06_s0. vm_compute. reflexivity. }
+  split; [apply reach_ok_in, fx_steps_reach; [exact R0|vm_compute; reflexivity]|].
+  split.
+  { assert (Q : exists e0 e1, queue (snd c06_s2) = [e0; e1] /\ e_id e1 = 2%nat /\ e_cancelled e1 = false /\ e_time e1 = 32 /\ now (snd c06_s2) = 8).
+    { vm_compute. eexists. eexists. repeat split; reflexivity. }
+    destruct Q as [e0 [e1 [Q [Qi [Qc [Qt Qn]]]]]]. left. exists e1. rewrite Q, Qn, Qt. split; [right; left; reflexivity|]. repeat split; auto. }
+  split; [apply (fx_hist_chain c06_sc 2 c06_ops); vm_compute; reflexivity|].
+  split; [vm_compute; reflexivity|]. split; [vm_compute; reflexivity|]. split; vm_compute; reflexivity.
 Qed.
